@@ -290,8 +290,11 @@ fn gravsoft_grid_reader(buf: &[u8]) -> Result<(Vec<f64>, Vec<f32>), Error> {
     let dlon = header[5].copysign(lon_e - lon_w);
     let rows = ((lat_s - lat_n) / dlat + 1.5).floor() as usize;
     let cols = ((lon_e - lon_w) / dlon + 1.5).floor() as usize;
-    let bands = grid.len() / (rows * cols);
-    if (rows * cols * bands) > grid.len() || bands < 1 {
+    if rows == 0 || cols == 0 {
+        return Err(Error::General("Malformed Gravsoft header"));
+    }
+    let bands = grid.len() / rows / cols;
+    if bands < 1 || (rows * cols * bands) > grid.len() {
         return Err(Error::General("Incomplete Gravsoft grid"));
     }
 
